@@ -957,4 +957,299 @@ Qed.
 
 End Flush.
 
+(* ================= packets ================= *)
+Lemma NInv_stop' st acc o : GB st acc -> o <> Running -> NInv (set_out st o) acc.
+Proof.
+  intros G Ho.
+  assert (L : live (set_out st o) = false) by (apply live_set_out; exact Ho).
+  split; [split|].
+  - apply (GBase_quiet D f0 tmps0 st _ acc b0 G); try (unfold b0; lia); simpl.
+    + apply step_refl; [apply (g_wf D f0 tmps0 st acc G)|apply (g_next D f0 tmps0 st acc G)].
+    + repeat split.
+    + apply G.
+  - intros L'. congruence.
+  - intros L'. congruence.
+Qed.
+
+Lemma NInv_stop st acc o : NInv st acc -> o <> Running -> NInv (set_out st o) acc.
+Proof. intros [[G _] _] Ho. apply NInv_stop'; auto. Qed.
+
+Lemma OInv_quiet st st' acc b :
+  wf (r_fs st) -> step TNone b (r_fs st) (r_fs st') ->
+  r_old st' = r_old st -> r_rmdir st' = r_rmdir st -> r_closed st' = r_closed st ->
+  (live st' = true -> live st = true) -> OInv st acc -> OInv st' acc.
+Proof.
+  intros W S E1 E2 E3 Hl O L. destruct (O (Hl L)) as [O1 O2 O3]. constructor.
+  - rewrite E1, E3. exact O1.
+  - rewrite E1. exact O2.
+  - rewrite E1, E2, E3. intros Hc. destruct (O3 Hc) as [P Rm]. split; [|exact Rm].
+    intros s Hs Hsup. rewrite (quiet_rwalk D b (r_fs st) (r_fs st') _ W S). apply (P s Hs Hsup).
+Qed.
+
+Lemma OInv_closed st st' acc :
+  r_old st' = r_old st -> r_closed st' = true -> (live st' = true -> live st = true) -> OInv st acc -> OInv st' acc.
+Proof.
+  intros E1 E3 Hl O L. destruct (O (Hl L)) as [(done & Ed & _) O2 _]. constructor.
+  - exists done. rewrite E1. split; [exact Ed|]. intros H. congruence.
+  - rewrite E1. exact O2.
+  - intros H. congruence.
+Qed.
+
+Lemma recv_data_same idx id d st :
+  r_old (recv_data c idx id d st) = r_old st /\ r_rmdir (recv_data c idx id d st) = r_rmdir st
+  /\ r_closed (recv_data c idx id d st) = r_closed st.
+Proof.
+  unfold recv_data. destruct (alookup id (r_pipes st)) as [pp|]; [|repeat split].
+  destruct (pp_closed pp); [repeat split|].
+  destruct (spend st) as [st1|] eqn:Es; [|repeat split].
+  destruct (spend_core st st1 Es) as (_ & _ & _ & _ & _ & _ & Eo & _ & Ecl & _ & Erm & _).
+  destruct (is_nil d).
+  - destruct (r_asyncerr st1); [destruct (pp_fd pp); simpl; auto|].
+    destruct (if has_bits (st_mode (pp_stat pp)) ModeSetuid || has_bits (st_mode (pp_stat pp)) ModeSetgid
+              then sys_chmod c (r_fs st1) (pp_path pp) (unix_perm (st_mode (pp_stat pp))) else (r_fs st1, ROk)) as [f1 r1].
+    destruct (if is_err r1 then (f1, r1) else sys_utimens c f1 (pp_path pp) (st_mtime (pp_stat pp))) as [f2 r2].
+    simpl. auto.
+  - destruct (match pp_fd pp with Some i => (r_fs st1, RFd i) | None => sys_open_wronly c (r_fs st1) (pp_path pp) false 0 end) as [f1 r].
+    destruct r; simpl; auto. destruct (fd_pwrite f1 i (pp_off pp) d) as [f2 r2]. simpl. auto.
+Qed.
+
+Lemma recv_data_ninv idx id d st acc : NInv st acc -> NInv (recv_data c idx id d st) acc.
+Proof.
+  intros [G O]. destruct (recv_data_dq D root f0 tmps0 W0 tmp_ok idx id d st acc G) as (G' & S & Hl).
+  change {| c_root := root; c_cwd := D |} with c in G', S, Hl.
+  destruct (recv_data_same idx id d st) as (E1 & E2 & E3).
+  split; [exact G'|].
+  apply (OInv_quiet st _ acc b0 (g_wf D f0 tmps0 st acc (proj1 G)) S E1 E2 E3 Hl O).
+Qed.
+
+Lemma maybe_wait_ninv idx st acc : NInv st acc -> NInv (maybe_wait c dl idx st) acc.
+Proof.
+  intros [G O]. split.
+  - pose proof (maybe_wait_inv D root f0 tmps0 dl tmp_ok idx st acc G) as X.
+    change {| c_root := root; c_cwd := D |} with c in X. exact X.
+  - unfold maybe_wait.
+    destruct ((running st || match r_out st with Drained _ => true | _ => false end) && negb (is_dead st)); [|exact O].
+    destruct (r_closed st && negb (r_waited st)) eqn:Ec; [|exact O].
+    apply andb_true_iff in Ec. destruct Ec as [Ec _].
+    destruct (r_asyncerr st).
+    + intros L. rewrite live_set_dead in L. discriminate.
+    + destruct (is_nil (r_pipes st)); [|exact O].
+      destruct (spend st) as [st1|] eqn:Es.
+      2:{ intros L. rewrite live_set_out in L; [discriminate|discriminate]. }
+      destruct (spend_core st st1 Es) as (_ & _ & El & _ & _ & _ & Eo & _).
+      apply (OInv_closed st _ acc); simpl; auto.
+      intros L. rewrite <- El. exact L.
+Qed.
+
+Lemma cvstep_parent_new stk it stk' : cvstep stk it = Some stk' -> exists l, In (removelast (ipath it), l) stk'.
+Proof.
+  intros Hs. unfold cvstep in Hs.
+  destruct (rev (ipath it)) as [|b rd] eqn:Er; [discriminate|].
+  pose proof (rev_decomp _ _ _ Er) as Hp. rewrite Hp, removelast_last.
+  destruct (cpop (rev rd) stk) as [|[d' l] rest]; [discriminate|].
+  destruct (lex d' (rev rd)) eqn:El; try discriminate. apply lex_eq in El. subst d'.
+  destruct (cmpb l b); try discriminate.
+  inversion Hs. exists b. destruct (negb (del it) && isdir it); simpl; auto.
+Qed.
+
+Lemma hl_step_wanted seen s seen' : hl_step seen s = Some seen' ->
+  forall q, In q seen' -> In q seen \/ (q = st_path s /\ wanted s).
+Proof.
+  unfold hl_step, wanted. destruct (st_is_dir s) eqn:Ed; cbn [orb].
+  - intros H; inversion H; subst. auto.
+  - destruct (mode_is_symlink (st_mode s)) eqn:Es.
+    + intros H; inversion H; subst; auto.
+    + destruct (is_nil (st_linkname s)) eqn:En; cbn [negb].
+      * intros H; inversion H; subst. intros q [E|Hq]; auto.
+      * destruct (mem_bytes (st_linkname s) seen); intros H; inversion H; subst; auto.
+Qed.
+
+Lemma stack_acc st acc ds l : GB st acc -> alive_inv D tmps0 st -> In (ds, l) (r_vstk st) ->
+  pcomps ds = [] \/ exists q, In q (accpaths acc) /\ comps q = pcomps ds /\ safe (r_fs st) D (comps q).
+Proof.
+  intros G [A1 A2 A3] Hin. destruct (pcomps ds) as [|x r] eqn:E; [left; reflexivity|right].
+  assert (Hin' : In (pcomps ds, l) (map ce (r_vstk st))) by (apply in_map_iff; exists (ds, l); split; auto).
+  destruct (inv_dirs _ _ (g_vinv D f0 tmps0 st acc G) _ _ Hin') as (q & Hq & Eq & _); [rewrite E; discriminate|].
+  apply in_map_iff in Hq. destruct Hq as (it' & <- & Hit'). cbn [ipath citem_of] in Eq.
+  exists (vpath it'). split; [apply in_map; exact Hit'|]. split; [rewrite <- E; exact Eq|].
+  rewrite Eq. apply (A2 ds l Hin).
+Qed.
+
+Lemma recv_stat_ninv idx s st acc :
+  NInv st acc -> running st = true -> cleanp (st_path s) -> exists acc', NInv (recv_stat c idx s st) acc'.
+Proof.
+  intros [[G A] O] Hrun Hcl. unfold recv_stat.
+  set (files := if mode_is_regular (st_mode s) then bset (st_path s) (r_next st) (r_files st) else r_files st).
+  set (it := item_of s).
+  destruct (vstep (r_vstk st) it) as [v'|] eqn:Ev.
+  2:{ exists acc. apply NInv_stop'; [|discriminate].
+      apply (GBase_quiet D f0 tmps0 st _ acc b0 G); try (unfold b0; lia); simpl.
+      - apply step_refl; [apply (g_wf D f0 tmps0 st acc G)|apply (g_next D f0 tmps0 st acc G)].
+      - repeat split.
+      - apply G. }
+  pose proof (vstep_ok_path _ _ _ Ev) as Hok. change (vpath it) with (st_path s) in Hok.
+  pose proof (vstep_refines (r_vstk st) it (g_R D f0 tmps0 st acc G) Hok) as Hr. rewrite Ev in Hr. destruct Hr as [Hcv HR'].
+  destruct (cvstep_sound _ _ _ _ (g_vinv D f0 tmps0 st acc G) (okitem_names it Hok) Hcv) as [Hspec HI'].
+  change [citem_of it] with (map citem_of [it]) in HI'. rewrite <- map_app in HI'.
+  destruct (cvstep_shape _ _ _ (inv_chain _ _ (g_vinv D f0 tmps0 st acc G)) Hcv) as [Hparent Hshape].
+  pose proof (cvstep_parent_new _ _ _ Hcv) as Hpar'.
+  cbn [ipath citem_of it item_of vpath] in Hparent, Hshape, Hpar'.
+  exists (acc ++ [it]).
+  assert (Hbase : forall st', r_fs st' = r_fs st -> r_vstk st' = v' -> r_pipes st' = r_pipes st -> r_tmps st' = r_tmps st ->
+             (forall q, In q (r_seen st') -> In q (r_seen st) \/ q = st_path s) -> GB st' (acc ++ [it])).
+  { intros st' E1 E2 E3 E4 E5. apply (GBase_ext D f0 tmps0 st st' acc it v'); auto. }
+  destruct (hl_step (r_seen st) s) as [seen'|] eqn:Eh.
+  2:{ apply NInv_stop'; [|discriminate]. apply Hbase; simpl; auto. }
+  destruct (hl_step_seen _ _ _ Eh) as [Hseen' Hlinkseen].
+  set (st1 := set_valid (set_valid st (r_vstk st) (r_seen st) files (r_next st + 1)) v' seen' files (r_next st + 1)).
+  assert (G1 : GB st1 (acc ++ [it])).
+  { apply Hbase; simpl; auto. intros q Hq. destruct (Hseen' q Hq) as [H|[H _]]; auto. }
+  destruct (r_closed st1) eqn:Ecl.
+  { cbn [negb]. rewrite andb_false_r. apply NInv_stop'; [exact G1|discriminate]. }
+  cbn [negb]. rewrite andb_true_r.
+  destruct (is_dead st1) eqn:Edd; [apply NInv_stop'; [exact G1|discriminate]|].
+  assert (Edd' : is_dead st = false) by exact Edd.
+  assert (Ecl' : r_closed st = false) by exact Ecl.
+  assert (L : live st = true) by (unfold live; rewrite Hrun, Edd'; reflexivity).
+  pose proof (A L) as AL. destruct AL as [A1 A2 A3]. destruct (O L) as [(done & Esplit & Hdone) O2 O3].
+  specialize (Hdone Ecl'). destruct (O3 Ecl') as [Hprist Hrm].
+  assert (Hlt : forall it0, In it0 acc -> compare_path (vpath it0) (st_path s) = Lt).
+  { intros it0 Hit0. destruct Hspec as (_ & Hlt & _). rewrite compare_path_lex. apply (Hlt (citem_of it0)). apply in_map. exact Hit0. }
+  assert (Hpar0 : removelast (comps (st_path s)) = [] \/
+            exists q, In q (accpaths acc) /\ comps q = removelast (comps (st_path s)) /\ safe (r_fs st1) D (comps q)).
+  { destruct Hparent as [l Hl]. apply In_map_ce in Hl. destruct Hl as (ds & Hin & Eds).
+    destruct (stack_acc st acc ds l G (A L) Hin) as [E|(q & Hq & Eq & Hs)].
+    - left. rewrite <- Eds. exact E.
+    - right. exists q. split; auto. split; [rewrite Eq; exact Eds|exact Hs]. }
+  assert (Hlink0 : hardlink_branch s = true ->
+            In (st_linkname s) (accpaths acc) /\ safe (r_fs st1) D (comps (st_linkname s))).
+  { intros Hhb. pose proof (Hlinkseen Hhb) as Hin. split; [apply (g_seen D f0 tmps0 st acc G _ Hin)|apply (A3 _ Hin)]. }
+  assert (Hstack0 : forall ds l, In (ds, l) v' ->
+            pcomps ds = [] \/ (exists q, In q (accpaths acc) /\ comps q = pcomps ds /\ safe (r_fs st1) D (comps q))
+            \/ (pcomps ds = comps (st_path s) /\ wanted s)).
+  { intros ds l Hin.
+    assert (Hin' : In (pcomps ds, l) (map ce v')) by (apply in_map_iff; exists (ds, l); split; auto).
+    destruct (Hshape _ _ Hin') as [(Hp & l' & Hl')|(E1 & E2 & _)].
+    - apply In_map_ce in Hl'. destruct Hl' as (ds' & Hin2 & Eds).
+      destruct (stack_acc st acc ds' l' G (A L) Hin2) as [E|(q & Hq & Eq & Hs)].
+      + left. rewrite <- Eds. exact E.
+      + right. left. exists q. split; auto. split; [rewrite Eq; exact Eds|exact Hs].
+    - right. right. split; [exact E1|]. left. cbn [isdir citem_of it item_of visdir] in E2. exact E2. }
+  assert (Hseen0 : forall q, In q seen' ->
+            (In q (accpaths acc) /\ safe (r_fs st1) D (comps q)) \/ (q = st_path s /\ wanted s)).
+  { intros q Hq. destruct (hl_step_wanted _ _ _ Eh q Hq) as [H|H]; [left|right; exact H].
+    split; [apply (g_seen D f0 tmps0 st acc G _ H)|apply (A3 _ H)]. }
+  pose proof (diff_feed_inv st1 acc s v' seen' idx Hok Hcl Hspec HI' Hpar'
+                (g_acc D f0 tmps0 st acc G) Hpar0 Hlink0 Hstack0 Hseen0 Ecl (r_old st1) st1 done) as X.
+  apply X. clear X.
+  constructor.
+  - exact G1.
+  - reflexivity.
+  - reflexivity.
+  - intros id pp Hin. apply (g_pipes D f0 tmps0 st acc G id pp Hin).
+  - exact Ecl.
+  - reflexivity.
+  - exact Esplit.
+  - intros s' Hs'. destruct (Hdone s' Hs') as (it0 & Hit0 & Hle).
+    apply (cmp_le_lt_trans _ (vpath it0)); auto.
+  - exact O2.
+  - intros _. split; [exact A1|]. split; [auto|]. split; [exact Hprist|].
+    destruct Hrm as [E|(X & E & HX & Hgt & Hdead & (it1 & Hit1 & Hle))]; [left; exact E|right].
+    assert (HXp : compare_path X (st_path s) = Lt) by (apply (cmp_le_lt_trans _ (vpath it1)); auto).
+    exists X. split; [exact E|]. split; [exact HX|]. split; [exact Hgt|]. split; [|exact HXp].
+    intros it0 Hit0 Ev0. apply in_app_or in Hit0. destruct Hit0 as [Hit0|[<-|[]]]; [apply Hdead; auto|].
+    exfalso. apply (cmp_lt_ne _ _ HXp). symmetry. exact Ev0.
+Qed.
+
+Lemma flush_ninv idx st acc :
+  NInv st acc -> live st = true -> r_closed st = false ->
+  NInv (diff_flush c idx (r_old st) (set_flags st true (r_waited st))) acc.
+Proof.
+  intros [[G A] O] L Ecl. destruct (A L) as [A1 A2 A3]. destruct (O L) as [(done & Esplit & _) O2 O3].
+  destruct (O3 Ecl) as [Hprist Hrm].
+  set (st1 := set_flags st true (r_waited st)).
+  assert (G1 : GB st1 acc).
+  { apply (GBase_quiet D f0 tmps0 st st1 acc b0 G); try (unfold b0; lia); simpl.
+    - apply step_refl; [apply (g_wf D f0 tmps0 st acc G)|apply (g_next D f0 tmps0 st acc G)].
+    - repeat split.
+    - apply G. }
+  pose proof (diff_flush_inv st1 acc idx (g_acc D f0 tmps0 st acc G)) as X.
+  apply (X ltac:(intros ds l Hin; apply (stack_acc st acc ds l G (A L) Hin))
+     ltac:(intros q Hq; split; [apply (g_seen D f0 tmps0 st acc G _ Hq)|apply (A3 _ Hq)]) (r_old st) st1 done). clear X.
+  constructor.
+  - exact G1.
+  - reflexivity.
+  - reflexivity.
+  - reflexivity.
+  - reflexivity.
+  - exact Esplit.
+  - exact O2.
+  - intros _. split; [exact A1|]. split; [auto|]. split; [exact Hprist|].
+    destruct Hrm as [E|(X & E & HX & Hgt & _)]; [left; exact E|right]. exists X. auto.
+Qed.
+
+Lemma recv_packet_ninv idx pk st acc :
+  NInv st acc -> clean_packet tmps0 pk -> exists acc', NInv (recv_packet c dl idx pk st) acc'.
+Proof.
+  intros M Hc. unfold recv_packet. destruct (running st) eqn:Hrun; cbn [negb]; [|exists acc; exact M].
+  assert (X : exists acc', NInv (match pk with
+                                 | PErr => set_out st (Failed idx)
+                                 | PFin => set_out st (Drained idx)
+                                 | POther => st
+                                 | PStat None =>
+                                   if r_closed st then set_out st (Panicked idx)
+                                   else if is_dead st then set_out st (Failed idx)
+                                   else diff_flush c idx (r_old st) (set_flags st true (r_waited st))
+                                 | PStat (Some s) => recv_stat c idx s st
+                                 | PData id d => recv_data c idx id d st
+                                 end) acc').
+  { destruct pk as [[s|]|id d| | |].
+    - apply (recv_stat_ninv idx s st acc M Hrun Hc).
+    - exists acc. destruct (r_closed st) eqn:Ecl; [apply NInv_stop; auto; discriminate|].
+      destruct (is_dead st) eqn:Ed; [apply NInv_stop; auto; discriminate|].
+      apply flush_ninv; auto. unfold live. rewrite Hrun, Ed. reflexivity.
+    - exists acc. apply recv_data_ninv. exact M.
+    - exists acc. apply NInv_stop; auto; discriminate.
+    - exists acc. apply NInv_stop; auto; discriminate.
+    - exists acc. exact M. }
+  destruct X as [acc' M']. exists acc'. apply maybe_wait_ninv. exact M'.
+Qed.
+
+Lemma recv_loop_ninv : forall pks idx st acc,
+  NInv st acc -> Forall (clean_packet tmps0) pks -> exists acc', NInv (recv_loop c dl idx pks st) acc'.
+Proof.
+  induction pks as [|pk pks IH]; intros idx st acc M Hc; simpl; [exists acc; exact M|].
+  inversion Hc; subst. destruct (recv_packet_ninv idx pk st acc M H1) as [acc1 M1].
+  apply (IH (S idx) _ acc1 M1 H2).
+Qed.
+
+Lemma NInv_init budget : NInv (rstate_init f0 D false tmps0 budget) [].
+Proof.
+  split; [split|].
+  - constructor; simpl.
+    + apply step_refl; auto. unfold b0. lia.
+    + constructor; [left; reflexivity|constructor].
+    + apply inv_init.
+    + constructor.
+    + intros q [].
+    + intros id pp [].
+    + intros t Ht. right. exact Ht.
+  - intros _. constructor; simpl.
+    + exact Hunused.
+    + intros d l [E|[]]. inversion E; subst. exact I.
+    + intros q [].
+  - intros _. constructor; simpl.
+    + exists []. split; [reflexivity|]. intros _ s [].
+    + intros s it0 _ [].
+    + intros _. split; [intros s _ _; reflexivity|left; reflexivity].
+Qed.
+
+Theorem recv_nomerge_step pks budget :
+  Forall (clean_packet tmps0) pks ->
+  step TAll b0 f0 (r_fs (recv_run f0 root D dl false tmps0 pks budget)).
+Proof.
+  intros Hc. unfold recv_run.
+  destruct (recv_loop_ninv pks 0 _ [] (NInv_init budget) Hc) as [acc [[G _] _]]. apply G.
+Qed.
+
 End RecvOld.
